@@ -150,6 +150,11 @@ def stage_trace(ctx, st):
     if traces:
         ctx.samples.append(dict(stage=name, recorded_trace=vlib.trunc([json.loads(x) for x in traces[len(traces) // 2][1]], 10)))
     ctx.extra.setdefault("trace_stages", []).append(dict(stage=name, module=st["module"], traces=len(traces), events=nev, accepted=v["ok"], tlc_distinct=v["tlc"]["distinct"], race_detector=bool(st.get("race"))))
+    if not v["ok"] and st.get("race_only"):
+        # the trace specification belongs to an extension; in this host only the race detector decides
+        log(f"[{ctx.prop}] trace {name}: not accepted by {st['module']} (consumed={v['hwm']}); race_only stage, not deciding")
+        shutil.rmtree(wd, ignore_errors=True)
+        return
     if not v["ok"]:
         if v["hwm"] is None and not v["invariant"]:
             raise CannotDecide(f"TLC failed on recorded traces (not a rejection):\n{v['text'][-3000:]}")
